@@ -42,9 +42,13 @@ def _feed(h, x, depth):
         h.update(b"S" + repr(sorted(map(repr, x))).encode())
     elif isinstance(x, slice):
         h.update(repr(x).encode())
+    elif isinstance(x, (bool, int, float, np.integer, np.floating, np.bool_)):
+        # numbers by value: lru_cache keys treat 0, 0.0 and False as the same key, so must the monitor
+        v = x.item() if isinstance(x, np.generic) else x
+        h.update(b"#" + (repr(int(v)) if v == int(v) else repr(float(v))).encode() if v == v and abs(v) != float("inf") else b"#" + repr(v).encode())
     elif isinstance(x, np.generic):
         h.update(b"G" + repr(x.item()).encode() + str(x.dtype).encode())
-    elif x is None or isinstance(x, (bool, int, float, complex, str, bytes)):
+    elif x is None or isinstance(x, (complex, str, bytes)):
         h.update(type(x).__name__.encode() + repr(x).encode())
     elif isinstance(x, type) or hasattr(x, "SYM_ID"):
         h.update(b"C" + getattr(x, "SYM_ID", getattr(x, "__name__", "?")).encode())
@@ -54,7 +58,12 @@ def _feed(h, x, depth):
         h.update(b"O" + type(x).__name__.encode() + repr(x)[:200].encode())
 
 
+_NUM = (bool, int, float, np.integer, np.floating, np.bool_)
+
+
 def deep_equal(a, b, depth=0):
+    if isinstance(a, _NUM) and isinstance(b, _NUM):
+        return bool(a == b) or (a != a and b != b)
     if type(a) is not type(b):
         return False
     if isinstance(a, np.ndarray):
